@@ -19,6 +19,17 @@ CHECKS = {
         note=("trusted: CPython re, TLC; the design model abstracts rules to their width intervals; the link to all texts "
               "rests on the character-class alphabet plus random Unicode traces"),
         technique='TLA+ scan-loop model checked by TLC + TLC trace validation of instrumented lexer runs'),
+    'C04': dict(
+        category='model_checking',
+        text=("Design level: in the lock-step model a Splitter started fresh at each statement start stays equal to the running one "
+              "(re-splitting a piece = splitting from a fresh state; an incomplete-reset mutant of the model is rejected). Code level: "
+              "a state/transition cover of the lock-step product graph (each script completed by closing moves and followed by probe "
+              "statements), simulated scripts incl. junk, short class strings, random Unicode and fixtures go through parse(), split(), "
+              "split(piece), split(strip_semicolon); TLC (TraceSplit.tla, Text.tla) decides count agreement, piece = strip(statement), "
+              "whitespace-separated partition of the input and re-split idempotence per trace."),
+        design_ref='DESIGN.md §5 C04',
+        note='trusted: TLC, Python str.strip whitespace set transcribed in Text.tla',
+        technique='TLA+ lock-step model (TLC) + graph-cover behaviours replayed + TLC trace validation of split/parse runs'),
     'C05': dict(
         category='model_checking',
         text=("TLC explores the implementation-shaped Splitter.tla in lock-step with the ScriptGen.tla generator whose frame stack is "
